@@ -1,0 +1,44 @@
+//go:build verif
+
+// Contracts for package pmsg, read by /verif/govc. Comments only.
+
+package pmsg
+
+// Stripping works on copies: the message handed in (and its justification) is left untouched; the partial form
+// announces the key of the stripped chain and carries empty chains in its place.
+//@ func (*PartialMessageManager).ToPartialGMessage
+//@   property C13
+//@   modifies auto
+//@   ensures[the_message_handed_in_is_left_as_it_was] msg.Vote == old(msg.Vote) && msg.Justification == old(msg.Justification) && msg.Sender == old(msg.Sender) && (msg.Justification != nil ==> msg.Justification.Vote == old(msg.Justification.Vote)) && (msg.Vote.Value != nil ==> msg.Vote.Value.TipSets == old(msg.Vote.Value.TipSets))
+//@   maypanic
+//@   ensures[never_fails] result1 == nil && result0 != nil && result0.GMessage != nil && result0.GMessage != msg
+//@   ensures[announces_the_key_of_the_stripped_chain] res(IsZero, 1) || (result0.VoteValueKey == res(Key, 1) && argOf(Key, 1, 0) == old(msg.Vote.Value) && result0.Vote.Value != nil && len(result0.Vote.Value.TipSets) == 0)
+//@   ensures[bottom_is_left_as_it_is] res(IsZero, 1) ==> result0.Vote.Value == old(msg.Vote.Value)
+//@   ensures[everything_but_the_chains_is_copied] result0.Sender == msg.Sender && result0.Vote.Instance == msg.Vote.Instance && result0.Vote.Round == msg.Vote.Round && result0.Vote.Phase == msg.Vote.Phase && result0.Vote.SupplementalData == msg.Vote.SupplementalData && result0.Signature == msg.Signature && result0.Ticket == msg.Ticket
+//@   ensures[justification_is_copied_before_its_chain_is_dropped] msg.Justification != nil && !res(IsZero, 2) ==> result0.Justification != msg.Justification && result0.Justification.Vote.Instance == msg.Justification.Vote.Instance && result0.Justification.Vote.Round == msg.Justification.Vote.Round && result0.Justification.Vote.Phase == msg.Justification.Vote.Phase && result0.Justification.Signers == msg.Justification.Signers && result0.Justification.Signature == msg.Justification.Signature && len(result0.Justification.Vote.Value.TipSets) == 0
+//@   at IsZero 1
+//@     before[tests_the_vote_value] arg(0) == msg.Vote.Value
+
+// Completion puts back the chain found under the announced key for the message's instance, and the justification's
+// chain where the step pair says it is the same value.
+//@ func (*PartialMessageManager).CompleteMessage
+//@   property C13
+//@   modifies auto
+//@   maypanic
+//@   at GetChainByInstance 1
+//@     before[chain_is_looked_up_by_instance_and_announced_key] arg(2) == pgmsg.Vote.Instance && arg(3) == pgmsg.VoteValueKey && !res(IsZero, 1)
+//@   at return 2
+//@     before[zero_key_means_nothing_to_complete] res(IsZero, 1) && arg(0) == pgmsg.GMessage && arg(1)
+//@   at return 3
+//@     before[no_chain_no_message] !res(GetChainByInstance, 1, 1) && arg(0) == nil && !arg(1)
+//@   at return 4
+//@     before[completed_with_the_chain_found] res(GetChainByInstance, 1, 1) && arg(0) == pgmsg.GMessage && arg(1) && dominatedBy(inferJustificationVoteValue, 1) && argOf(inferJustificationVoteValue, 1, 0) == pgmsg
+//@   at inferJustificationVoteValue 1
+//@     before[vote_value_is_set_first] pgmsg.Vote.Value == res(GetChainByInstance, 1, 0)
+
+//@ func inferJustificationVoteValue
+//@   property C13
+//@   modifies pgmsg.Justification.Vote.Value
+//@   ensures[justification_value_follows_the_step_pair] pgmsg.Justification != nil ==> pgmsg.Justification.Vote.Value ==
+//@        ite(((pgmsg.Vote.Phase == gpbft.CONVERGE_PHASE || pgmsg.Vote.Phase == gpbft.PREPARE_PHASE || pgmsg.Vote.Phase == gpbft.COMMIT_PHASE) && pgmsg.Justification.Vote.Phase == gpbft.PREPARE_PHASE)
+//@              || (pgmsg.Vote.Phase == gpbft.DECIDE_PHASE && pgmsg.Justification.Vote.Phase == gpbft.COMMIT_PHASE), pgmsg.Vote.Value, old(pgmsg.Justification.Vote.Value))
